@@ -10,6 +10,10 @@ def run(ctx):
     ctx.build(["vh-tensor"])
     # 1. contract model-checked (chunked variant) + behaviour generation (unit variant)
     ctx.tlc_mc("tensor/MC_Iterators", "tensor/MC_Iterators_chunk.cfg", workers=4, timeout=600)
+    # implementation-shaped transcription of OffsetsBase (cursor positions with carry, next_back via
+    # offset_from_linear_index, step_by/nth, split_at) against the contract, all shapes of rank <= 3, sizes <= 3
+    ctx.tlc_mc("tensor/IteratorsImpl", "tensor/IteratorsImpl.cfg", workers=4, timeout=900,
+               label="OffsetsBase transcription yields the contract's elements for every shape and history of 4 operations")
     hist_all = ctx.path("hist_all.jsonl")
     gen_cfg = "tensor/MC_Iterators_gen3.cfg" if ctx.quick else "tensor/MC_Iterators_gen4.cfg"
     nh = ctx.tlc_generate("tensor/MC_Iterators", gen_cfg, hist_all, workers=4, timeout=1200)
